@@ -155,6 +155,23 @@ fn stub_family(thorough: bool) -> (VSink, u64) {
                 let rank = (3u64 << 60) | (l.len() as u64) << 40 | (i as u64) << 20 | acc.1 & 0xfffff;
                 check_stub_meta(&m, &leaves, "stub-list", rank, &mut acc.0);
             }
+            // wide lists: 5..1025 components, all a background stub except pool[i] at the front, middle or back
+            // (the aggregate must not depend on how long the list is or where the deciding component sits)
+            for &n in &[5usize, 9, 17, 65, 257, 1025] {
+                if n > 65 && i % 5 != 0 && !thorough {
+                    continue;
+                }
+                for &b in &[sparse[1], sparse[sparse.len() / 2]] {
+                    for pos in [0, n / 2, n - 1] {
+                        acc.1 += 1;
+                        let mut leaves: Vec<&Stub> = vec![&pool[b]; n];
+                        leaves[pos] = &pool[i];
+                        let m = MergedTimeline::of(leaves.iter().map(|s| (*s).clone()).collect::<Vec<_>>());
+                        let rank = (5u64 << 60) | (n as u64) << 40 | (i as u64) << 20 | (b as u64) << 4 | pos.min(2) as u64;
+                        check_stub_meta(&m, &leaves, "wide-list", rank, &mut acc.0);
+                    }
+                }
+            }
             // nested: [[i, j], [k]] and [[i], [j, k]] over the sparse pool
             for &j in &sparse {
                 for &k in &sparse {
@@ -368,7 +385,7 @@ pub fn run(run: Run) -> ! {
     cov.insert("traces_validated_against_impl".into(), json!(acc.evals));
     cov.insert("evaluations".into(), json!(acc.evals));
     cov.insert("distinct_nontrivial".into(), json!(acc.lists - 1));
-    cov.insert("rule".into(), json!(format!("ALL lists of length 0..={maxlen} over a pool of {np} component timelines (property sets {{a}},{{k}},{{a,k}},{{}}; delays 0..1; cycles 1/2,1,2,4; repeat None/Times 0,1,2,3/Infinite/Times(u32::MAX, metadata only); reverse on/off); oracle: merged.update == components applied in order (bit-equal; fresh and dirty targets; union of the components' time grids), same after start_with, all orders agree when property sets are disjoint ({} permuted lists), delay=min, duration=max (inf if any), repeat=largest in None<Times n<Infinite, cycle_duration=Some iff all equal, MergedTimeline::from(t) == t; plus a metadata family of {} lists over 270 stub components (cycle undefined/1/2/1+1ulp/1e-8/5e-8 x delay 0/0.5/2 x duration 1/3/inf x repeat None/Times 0/Times 3/Times(u32::MAX)/Infinite): flat lists and nested merged timelines [[a,b],[c]], [[a],[b,c]] with the same oracle; non-trivial = non-empty lists", acc.disjoint_orders, stub_lists)));
+    cov.insert("rule".into(), json!(format!("ALL lists of length 0..={maxlen} over a pool of {np} component timelines (property sets {{a}},{{k}},{{a,k}},{{}}; delays 0..1; cycles 1/2,1,2,4; repeat None/Times 0,1,2,3/Infinite/Times(u32::MAX, metadata only); reverse on/off); oracle: merged.update == components applied in order (bit-equal; fresh and dirty targets; union of the components' time grids), same after start_with, all orders agree when property sets are disjoint ({} permuted lists), delay=min, duration=max (inf if any), repeat=largest in None<Times n<Infinite, cycle_duration=Some iff all equal, MergedTimeline::from(t) == t; plus a metadata family of {} lists over 270 stub components (cycle undefined/1/2/1+1ulp/1e-8/5e-8 x delay 0/0.5/2 x duration 1/3/inf x repeat None/Times 0/Times 3/Times(u32::MAX)/Infinite): flat lists, nested merged timelines [[a,b],[c]], [[a],[b,c]] and WIDE lists (5..1025 components: a background stub with one other stub at the front, middle or back) with the same oracle; non-trivial = non-empty lists", acc.disjoint_orders, stub_lists)));
     cov.insert("exhaustive".into(), json!(true));
     cov.insert("metadata_checks".into(), json!(acc.meta_checks));
     cov.insert("distinct_observed_outcomes_capped".into(), json!(acc.outcomes.len()));
